@@ -407,3 +407,114 @@ theorem seq_loop_runs {t : Target} {ly : Layout} {sp : SinglePair} {L q b I J' s
   simpa using Reaches.head (step_recvEpr hstart) hr
 
 end NQ.Bell
+
+namespace NQ.Bell
+set_option linter.unusedSimpArgs false
+
+/-! ### post routines that satisfy `PostOk` -/
+
+/-- straight-line commands that do not write the register `L`: classical writes to other registers,
+gates, moves, frees, waits, requests (no labels, no branches, no array loads) -/
+def Cmd.simpleFor (L : Nat) : Cmd → Bool
+  | .set r _ => r != L
+  | .add d _ _ => d != L
+  | .sub d _ _ => d != L
+  | .rot _ _ => true
+  | .mov _ _ => true
+  | .qfree _ => true
+  | .waitAllImm _ _ _ => true
+  | .waitAllReg _ _ _ => true
+  | .recvEpr _ _ _ _ => true
+  | .createEpr _ _ _ _ _ => true
+  | _ => false
+
+theorem simple_no_label {L : Nat} {post : List Cmd} (h : post.all (Cmd.simpleFor L) = true) (l : String) :
+    Cmd.label l ∉ post := by
+  intro hm
+  have := List.all_eq_true.mp h _ hm
+  simp [Cmd.simpleFor] at this
+
+/-- one simple command: it steps to the next position and keeps `L` -/
+theorem simple_step {code : List Cmd} {mem : Mem} {pc L : Nat} {c : Cmd} (hc : code[pc]? = some c)
+    (hs : c.simpleFor L = true) (regs : Nat → Int) (tr : List Ev) :
+    ∃ regs' evs, step code mem ⟨pc, regs, tr⟩ = some ⟨pc + 1, regs', tr ++ evs⟩ ∧ regs' L = regs L := by
+  cases c <;> simp [Cmd.simpleFor] at hs
+  case set r v => exact ⟨_, [], by simpa using step_set hc, upd_other _ _ _ _ (Ne.symm hs)⟩
+  case add d a b => exact ⟨_, [], by simpa using step_add hc, upd_other _ _ _ _ (Ne.symm hs)⟩
+  case sub d a b => exact ⟨_, [], by simpa using step_sub hc, upd_other _ _ _ _ (Ne.symm hs)⟩
+  case rot g r => exact ⟨_, _, step_rot hc, rfl⟩
+  case mov a b => exact ⟨_, _, step_mov hc, rfl⟩
+  case qfree r => exact ⟨_, _, step_qfree hc, rfl⟩
+  case waitAllImm a s e => exact ⟨regs, [], by simp [step, hc], rfl⟩
+  case waitAllReg a s e => exact ⟨regs, [], by simp [step, hc], rfl⟩
+  case recvEpr r k i x => exact ⟨regs, [], by simp [step, hc], rfl⟩
+  case createEpr r k i x y => exact ⟨regs, [], by simp [step, hc], rfl⟩
+
+/-- a list of simple commands inside any program runs through and keeps `L` -/
+theorem simple_run {mem : Mem} {L : Nat} (post : List Cmd) (h : post.all (Cmd.simpleFor L) = true) :
+    ∀ (pre rest : List Cmd) (regs : Nat → Int) (tr : List Ev),
+      ∃ regs' evs, Reaches (pre ++ (post ++ rest)) mem ⟨pre.length, regs, tr⟩
+        ⟨pre.length + post.length, regs', tr ++ evs⟩ ∧ regs' L = regs L := by
+  induction post with
+  | nil => intro pre rest regs tr; exact ⟨regs, [], by simpa using Reaches.refl _, rfl⟩
+  | cons c post ih =>
+    intro pre rest regs tr
+    simp only [List.all_cons, Bool.and_eq_true] at h
+    have hc : (pre ++ (c :: post ++ rest))[pre.length]? = some c := by
+      rw [List.getElem?_append_right (by omega)]; simp
+    obtain ⟨r1, e1, hs, hL1⟩ := simple_step (mem := mem) hc h.1 regs tr
+    obtain ⟨r2, e2, hr, hL2⟩ := ih h.2 (pre ++ [c]) rest r1 (tr ++ e1)
+    have hcode : pre ++ [c] ++ (post ++ rest) = pre ++ (c :: post ++ rest) := by simp
+    rw [hcode] at hr
+    refine ⟨r2, e1 ++ e2, ?_, by rw [hL2, hL1]⟩
+    have hl : (pre ++ [c]).length + post.length = pre.length + (c :: post).length := by
+      simp [List.length_append]; omega
+    have hl1 : (pre ++ [c]).length = pre.length + 1 := by simp
+    rw [hl, hl1] at hr
+    have ht : tr ++ (e1 ++ e2) = tr ++ e1 ++ e2 := by simp
+    rw [ht]
+    exact Reaches.head hs hr
+
+end NQ.Bell
+
+namespace NQ.Bell
+set_option linter.unusedSimpArgs false
+
+/-- a post routine made of simple commands satisfies `PostOk` in the emitted loop -/
+theorem simple_postOk {head : Cmd} {L : Nat} {n : Int} {l3 l4 : String} {W B post T : List Cmd} {mem : Mem}
+    (hW : W.length = 19) (hB : B.length = 20) (h : post.all (Cmd.simpleFor L) = true) :
+    PostOk (seqLoopCode head L n l3 l4 W B post T) mem 43 post.length L (fun _ _ => True) := by
+  intro i regs tr hL
+  obtain ⟨r, evs, hr, hL'⟩ := simple_run (mem := mem) post h
+    ([head, .set L 0, .label l3, .beq (.r L) (.imm n) l4] ++ (W ++ B)) (T ++ loopEnd L l3 l4) regs tr
+  have hcode : [head, Cmd.set L 0, .label l3, .beq (.r L) (.imm n) l4] ++ (W ++ B) ++ (post ++ (T ++ loopEnd L l3 l4))
+      = seqLoopCode head L n l3 l4 W B post T := by simp [seqLoopCode, List.append_assoc]
+  have hlen : ([head, Cmd.set L 0, .label l3, .beq (.r L) (.imm n) l4] ++ (W ++ B)).length = 43 := by
+    simp [hW, hB]
+  rw [hcode, hlen] at hr
+  exact ⟨r, evs, hr, by rw [hL', hL], trivial⟩
+
+/-- with an empty post routine on the post-routine path the iterations' events are exactly the
+demanded ones: pair i's rotations on `t.pick (ids[i])`, in order -/
+theorem iterEvents_pairs {sp : SinglePair} {t : Target} {bvs idv : List Int} (hlen : idv.length = bvs.length)
+    {i d : Nat} {all : List Ev}
+    (h : IterEvents (SeqIter sp t (fun _ pe => pe = []) false bvs.length bvs idv) i d all)
+    (hid : i + d = bvs.length) : all = pairEvents sp t ((bvs.zip idv).drop i) := by
+  induction h with
+  | nil i =>
+    have : (bvs.zip idv).drop i = [] := by
+      apply List.drop_eq_nil_of_le; simp [List.length_zip, hlen]; omega
+    rw [this]; rfl
+  | @cons i d e rest hR _ ih =>
+    obtain ⟨pe, hpe, he⟩ := hR
+    have hib : i < bvs.length := by omega
+    have hii : i < idv.length := by omega
+    have hz : i < (bvs.zip idv).length := by simp [List.length_zip, hlen]; omega
+    have hdrop : (bvs.zip idv).drop i = (bvs[i], idv[i]) :: (bvs.zip idv).drop (i + 1) := by
+      rw [List.drop_eq_getElem_cons hz]; simp
+    have g1 : bvs.getD i 0 = bvs[i] := by simp [List.getD, List.getElem?_eq_getElem hib]
+    have g2 : idv.getD i 0 = idv[i] := by simp [List.getD, List.getElem?_eq_getElem hii]
+    rw [hdrop, he, hpe, g1, g2, ih (by omega)]
+    simp [pairEvents]
+
+end NQ.Bell
